@@ -352,10 +352,15 @@ package math
 //@   modifies nothing
 //@   ensures [known] mapHas(a.inverse, name) ==> result1 == nil && result0 == a.inverse[name]
 //@   ensures [unknown] !mapHas(a.inverse, name) ==> result1 != nil
+// actU(type, x): the value the registry's function for `type` returns on x (the registry is not modified after
+// construction, the registered functions are pure: proved above) -- callers may rely on it being a function.
+//@ ufunc actU(Int, Float) Float
 //@ func (*NodeActivatorsFactory).ActivateByType
 //@   props C18
 //@   abstracts dynamic call
 //@   requires a != nil
+//@   modifies nothing
+//@   free_ensures [function] result1 == nil ==> result0 == actU(aType, input)
 //@   ensures [known] mapHas(a.activators, aType) ==> result1 == nil
 //@   ensures [unknown] !mapHas(a.activators, aType) ==> result1 != nil
 //@ func (*NodeActivatorsFactory).ActivateModuleByType
